@@ -54,8 +54,17 @@ RULE = ("target ADMGs with 2-5 nodes x 1-2 domains (selection diagram = the targ
         "joined by a directed path, e.g. X1->X2->W->Y, X1->Y, all event variables in the same world, 1-3 outcomes that are "
         "ancestors of one another, 1-2 domains; outside every known-finding class, so every answer is judged by the value "
         "oracle); a stream of source domains whose graph lacks a bidirected edge of the target (trichotomy clause only); "
-        "the worked examples of Correa et al. 2022 as corpus; "
-        "plus a malformed stream for every class of the validators. A case is non-trivial when validation passes, the graph "
+        "third round (measured against the mutation table tools/c09_mutants.py): a TWO-DOMAIN stream (single-world events with "
+        ">= 2 ctf-factors, each of two chosen factors transportable from exactly one of two domains - selection node or policy, "
+        "cut or not, on the other domain's copy of the district -, further marks only outside the ancestral set or inside the "
+        "blocked district, 1-5 bidirected edges so that districts of size >= 2, districts strictly inside their domain-graph "
+        "district and districts with outside ancestors are frequent, independent topological orders per domain); a REDUNDANT "
+        "stream (events SIMPLIFY changes: repeated item, valueless copy of a valued variable, causally irrelevant subscript); "
+        "an INCONSISTENT-FACTOR stream (Definition 4.1 (i) / (ii) inside one district: FAIL is the only right answer); source "
+        "mechanisms at marked variables are redrawn until every kernel row differs from the target's; "
+        "the worked examples of Correa et al. 2022 and the minimal witnesses of the mutation table as corpus; "
+        "plus a malformed stream for every class of the validators (event / outcome / condition outside the graph, order with "
+        "a wrong edge or a missing vertex, ...). A case is non-trivial when validation passes, the graph "
         "has >=3 nodes and some event variable has a subscript.")
 ASSUMPTIONS = [
     "ctfTRu_sound / ctfTR_sound (value clause) are OPEN and false of the current code on the open findings' inputs: "
@@ -76,7 +85,13 @@ ASSUMPTIONS = [
     "oracle model class: discrete variables, positive rational parameters, independent root latents per bidirected edge, one "
     "private uniform noise per variable; policies are fresh kernels at the policy variables (same parents, or none when cut)",
     "a returned event that gives one variable two values (or uses a variable both as subscript value and as event value with "
-    "different stars) is evaluated under every choice; the check reports only when no choice is right",
+    "different stars) is evaluated under every choice; the check reports only when no choice is right; a name bound by "
+    "neither the returned event nor a subscript of the query is read universally (the value must be right for each of its "
+    "values); ctfTR's returned event carries base variables only, so the literal subscripts are read from the query",
+    "FAIL and validation errors are never judged for necessity: a change that only refuses or rejects MORE inputs (selection "
+    "nodes tested on all vertices, Zero replaced by FAIL, a larger D*, a stricter validator) keeps C09 as stated and is seen "
+    "by the correspondence only (tools/c09_mutants.py lists these as `equiv`); inputs with an invalid topological order are "
+    "outside the quantifier, so a validator that stops checking the order is not detected",
 ]
 LEANCHECK_MODULES = ["Y0.Model.CtfTr", "Y0.Props.C09"]
 EXHAUSTIVE = {"quick": False, "thorough": False}
@@ -575,7 +590,7 @@ def _build(case):
         missing = mal == "bad_topo" and k == 0 and case.get("mal_variant") == "topo_missing"
         order = [Variable(G.vname(v)) for v in _topo(gd, case.get("topo_seed", 1) + k,
                                                      bad=(mal == "bad_topo" and k == 0 and not missing))]
-        if missing and order:
+        if missing and len(order) >= 2:     # never an EMPTY order: the public wrapper replaces it by the graph's own sort
             drop = G.vname(gd["di"][0][1]) if gd["di"] else order[-1].name
             order = [v for v in order if v.name != drop]
         regular = [Variable(G.vname(v)) for v in sorted(G.all_nodes(gd)) if v < 200]
@@ -625,6 +640,29 @@ def _candidate_bindings(ret_event, nodes, sigma, sigma2):
     return cand, free
 
 
+def _visible(fam, seed):
+    """make the source domains differ VISIBLY from the target: `Family` draws a fresh kernel at every marked variable,
+    but with denominator 4 a fresh row of a binary variable repeats the target's row one time in three (a root variable
+    has a single row), and a wrong choice of domain would then go unnoticed on this family.  Every row of a marked
+    variable's kernel that has the target's shape is redrawn until it differs from the target's row (still a member of
+    the compatible family: a domain may have ANY mechanism at a marked variable).  Called before any joint is cached."""
+    rng = random.Random(seed * 7 + 3)
+    for pop in sorted(fam.kern):
+        if pop == TARGET:
+            continue
+        for v in fam.nodes:
+            k, kt = fam.kern[pop][v], fam.kern[TARGET][v]
+            if k is kt or k.shape != kt.shape or fam.struct[pop][v] != fam.struct[TARGET][v]:
+                continue
+            k = k.copy()
+            for key in itt.product(*[range(n) for n in k.shape[1:]]):
+                idx = (slice(None),) + key
+                while list(k[idx]) == list(kt[idx]):
+                    k[idx] = FE._weights(rng, k.shape[0], fam.DEN)
+            fam.kern[pop][v] = k
+    return fam
+
+
 def _value_check(case, enc_expr_, ret_event, queried, cond=None):
     """(v): exists a reading of the returned event under which the expression equals P*(queried [| cond])"""
     g = case["g"]
@@ -632,8 +670,8 @@ def _value_check(case, enc_expr_, ret_event, queried, cond=None):
     doms = case["domains"]
     marks = {d["pop"]: set(d["tmarks"]) | set(d["policy"]) for d in doms if d["pop"] != TARGET}
     cut = {d["pop"]: set(d["cut"]) for d in doms if d["pop"] != TARGET}
-    fam = FE.Family({"nodes": nodes, "di": g["di"], "bi": g["bi"]}, marks, random.Random(case["eval_seed"]), cut=cut, den=4,
-                    tri_latents=False)
+    fam = _visible(FE.Family({"nodes": nodes, "di": g["di"], "bi": g["bi"]}, marks, random.Random(case["eval_seed"]), cut=cut,
+                             den=4, tri_latents=False), case["eval_seed"])
     ft = FE.FunctionalTarget(fam)
     try:
         arr = fam.ev(enc_expr_)
@@ -744,8 +782,8 @@ def _family(case):
     doms = case["domains"]
     marks = {d["pop"]: set(d["tmarks"]) | set(d["policy"]) for d in doms if d["pop"] != TARGET}
     cut = {d["pop"]: set(d["cut"]) for d in doms if d["pop"] != TARGET}
-    return FE.Family({"nodes": nodes, "di": g["di"], "bi": g["bi"]}, marks, random.Random(case["eval_seed"]), cut=cut, den=4,
-                     tri_latents=False)
+    return _visible(FE.Family({"nodes": nodes, "di": g["di"], "bi": g["bi"]}, marks, random.Random(case["eval_seed"]), cut=cut,
+                              den=4, tri_latents=False), case["eval_seed"])
 
 
 def _digest(case, enc):
